@@ -114,6 +114,7 @@ pub enum K {
     Channel(ChanK),
     Timer(TimerK),
     Generic(GenK),
+    Life(crate::life::LifeK),
     /// insertion failed before a kind-specific state made sense
     Failed,
 }
@@ -125,6 +126,7 @@ impl K {
             K::Channel(_) => "channel",
             K::Timer(_) => "timer",
             K::Generic(_) => "generic",
+            K::Life(_) => "lifecycle",
             K::Failed => "failed",
         }
     }
